@@ -259,19 +259,21 @@ def toyArmor : Bytes := [45, 45, 45, 45, 45, 66, 69, 71, 73, 78, 32, 80, 71, 80,
 def toySig : Bytes := [81, 85, 74, 68, 82, 65, 61, 61, 61, 65, 98, 67, 100]
 /-- `sha224-a794…42dd` -/
 def toyRef : Bytes := [115, 104, 97, 50, 50, 52, 45, 97, 55, 57, 52, 56, 52, 54, 50, 49, 50, 102, 102, 54, 55, 97, 99, 100, 100, 48, 48, 99, 54, 98, 57, 48, 101, 101, 101, 52, 57, 50, 98, 97, 102, 54, 55, 52, 100, 52, 49, 100, 97, 56, 97, 54, 50, 49, 100, 50, 101, 56, 48, 52, 50, 100, 100]
-/-- `{"camliVersion":1,"camliSig":"ZmFrZQ==","camliSigner":"sha224-a794…42dd"} \n` -/
-def toyUnsigned : Bytes := [123, 34, 99, 97, 109, 108, 105, 86, 101, 114, 115, 105, 111, 110, 34, 58, 49, 44, 34, 99, 97, 109, 108, 105, 83, 105, 103, 34, 58, 34, 90, 109, 70, 114, 90, 81, 61, 61, 34, 44, 34, 99, 97, 109, 108, 105, 83, 105, 103, 110, 101, 114, 34, 58, 34, 115, 104, 97, 50, 50, 52, 45, 97, 55, 57, 52, 56, 52, 54, 50, 49, 50, 102, 102, 54, 55, 97, 99, 100, 100, 48, 48, 99, 54, 98, 57, 48, 101, 101, 101, 52, 57, 50, 98, 97, 102, 54, 55, 52, 100, 52, 49, 100, 97, 56, 97, 54, 50, 49, 100, 50, 101, 56, 48, 52, 50, 100, 100, 34, 125, 32, 10]
-/-- the payload: `toyUnsigned` without the trailing white space and the final brace -/
-def toyPayload : Bytes := [123, 34, 99, 97, 109, 108, 105, 86, 101, 114, 115, 105, 111, 110, 34, 58, 49, 44, 34, 99, 97, 109, 108, 105, 83, 105, 103, 34, 58, 34, 90, 109, 70, 114, 90, 81, 61, 61, 34, 44, 34, 99, 97, 109, 108, 105, 83, 105, 103, 110, 101, 114, 34, 58, 34, 115, 104, 97, 50, 50, 52, 45, 97, 55, 57, 52, 56, 52, 54, 50, 49, 50, 102, 102, 54, 55, 97, 99, 100, 100, 48, 48, 99, 54, 98, 57, 48, 101, 101, 101, 52, 57, 50, 98, 97, 102, 54, 55, 52, 100, 52, 49, 100, 97, 56, 97, 54, 50, 49, 100, 50, 101, 56, 48, 52, 50, 100, 100, 34]
+/-- the payload `{"camliVersion":1,"camliSig":"ZmFrZQ==","camliSigner":"sha224-a794…42dd"`: it
+contains the separator `,"camliSig":"` itself (at offset 17) -/
+def toyPayload : Bytes :=
+  [123, 34, 99, 97, 109, 108, 105, 86, 101, 114, 115, 105, 111, 110, 34, 58, 49, 44, 34, 99, 97, 109, 108, 105, 83, 105, 103, 34, 58, 34, 90, 109, 70, 114, 90, 81, 61, 61, 34, 44, 34, 99, 97, 109, 108, 105, 83, 105, 103, 110, 101, 114, 34, 58, 34] ++ toyRef ++ [34]
+/-- the unsigned object: the payload, `}` and trailing white space -/
+def toyUnsigned : Bytes := toyPayload ++ [125, 32, 10]
 def toyLog : List (Nat × Bytes) := [(1, toyPayload)]
 /-- `toyPayload ++ ,"camliSig":"QUJDRA===AbCd"}\n` -/
-def toySigned : Bytes := [123, 34, 99, 97, 109, 108, 105, 86, 101, 114, 115, 105, 111, 110, 34, 58, 49, 44, 34, 99, 97, 109, 108, 105, 83, 105, 103, 34, 58, 34, 90, 109, 70, 114, 90, 81, 61, 61, 34, 44, 34, 99, 97, 109, 108, 105, 83, 105, 103, 110, 101, 114, 34, 58, 34, 115, 104, 97, 50, 50, 52, 45, 97, 55, 57, 52, 56, 52, 54, 50, 49, 50, 102, 102, 54, 55, 97, 99, 100, 100, 48, 48, 99, 54, 98, 57, 48, 101, 101, 101, 52, 57, 50, 98, 97, 102, 54, 55, 52, 100, 52, 49, 100, 97, 56, 97, 54, 50, 49, 100, 50, 101, 56, 48, 52, 50, 100, 100, 34, 44, 34, 99, 97, 109, 108, 105, 83, 105, 103, 34, 58, 34, 81, 85, 74, 68, 82, 65, 61, 61, 61, 65, 98, 67, 100, 34, 125, 10]
+def toySigned : Bytes := assemble toyPayload toySig
 /-- `toySigned` with `"camliVersion":2` -/
-def toyTampered : Bytes := [123, 34, 99, 97, 109, 108, 105, 86, 101, 114, 115, 105, 111, 110, 34, 58, 50, 44, 34, 99, 97, 109, 108, 105, 83, 105, 103, 34, 58, 34, 90, 109, 70, 114, 90, 81, 61, 61, 34, 44, 34, 99, 97, 109, 108, 105, 83, 105, 103, 110, 101, 114, 34, 58, 34, 115, 104, 97, 50, 50, 52, 45, 97, 55, 57, 52, 56, 52, 54, 50, 49, 50, 102, 102, 54, 55, 97, 99, 100, 100, 48, 48, 99, 54, 98, 57, 48, 101, 101, 101, 52, 57, 50, 98, 97, 102, 54, 55, 52, 100, 52, 49, 100, 97, 56, 97, 54, 50, 49, 100, 50, 101, 56, 48, 52, 50, 100, 100, 34, 44, 34, 99, 97, 109, 108, 105, 83, 105, 103, 34, 58, 34, 81, 85, 74, 68, 82, 65, 61, 61, 61, 65, 98, 67, 100, 34, 125, 10]
-/-- `toySigned` with white space inside and after the signature object -/
-def toySpaced : Bytes := [123, 34, 99, 97, 109, 108, 105, 86, 101, 114, 115, 105, 111, 110, 34, 58, 49, 44, 34, 99, 97, 109, 108, 105, 83, 105, 103, 34, 58, 34, 90, 109, 70, 114, 90, 81, 61, 61, 34, 44, 34, 99, 97, 109, 108, 105, 83, 105, 103, 110, 101, 114, 34, 58, 34, 115, 104, 97, 50, 50, 52, 45, 97, 55, 57, 52, 56, 52, 54, 50, 49, 50, 102, 102, 54, 55, 97, 99, 100, 100, 48, 48, 99, 54, 98, 57, 48, 101, 101, 101, 52, 57, 50, 98, 97, 102, 54, 55, 52, 100, 52, 49, 100, 97, 56, 97, 54, 50, 49, 100, 50, 101, 56, 48, 52, 50, 100, 100, 34, 44, 34, 99, 97, 109, 108, 105, 83, 105, 103, 34, 58, 34, 81, 85, 74, 68, 82, 65, 61, 61, 61, 65, 98, 67, 100, 34, 32, 125, 10, 10]
-/-- `toySigned` with a second member in the signature object -/
-def toyTwoKeys : Bytes := [123, 34, 99, 97, 109, 108, 105, 86, 101, 114, 115, 105, 111, 110, 34, 58, 49, 44, 34, 99, 97, 109, 108, 105, 83, 105, 103, 34, 58, 34, 90, 109, 70, 114, 90, 81, 61, 61, 34, 44, 34, 99, 97, 109, 108, 105, 83, 105, 103, 110, 101, 114, 34, 58, 34, 115, 104, 97, 50, 50, 52, 45, 97, 55, 57, 52, 56, 52, 54, 50, 49, 50, 102, 102, 54, 55, 97, 99, 100, 100, 48, 48, 99, 54, 98, 57, 48, 101, 101, 101, 52, 57, 50, 98, 97, 102, 54, 55, 52, 100, 52, 49, 100, 97, 56, 97, 54, 50, 49, 100, 50, 101, 56, 48, 52, 50, 100, 100, 34, 44, 34, 99, 97, 109, 108, 105, 83, 105, 103, 34, 58, 34, 81, 85, 74, 68, 82, 65, 61, 61, 61, 65, 98, 67, 100, 34, 44, 34, 120, 34, 58, 49, 125, 10]
+def toyTampered : Bytes := toySigned.set 16 50
+/-- `toySigned` with white space inside and after the signature object: `…AbCd" }\n\n` -/
+def toySpaced : Bytes := toyPayload ++ sigSeparator ++ toySig ++ [34, 32, 125, 10, 10]
+/-- `toySigned` with a second member in the signature object: `…AbCd","x":1}\n` -/
+def toyTwoKeys : Bytes := toyPayload ++ sigSeparator ++ toySig ++ [34, 44, 34, 120, 34, 58, 49, 125, 10]
 
 deriving instance DecidableEq for Except
 
